@@ -1,5 +1,5 @@
 SPECIFICATION Spec
-CONSTANT Depth = 8
+CONSTANT Depth = 10
 CONSTANT MaxD = 3
 CONSTRAINT Bound
 VIEW View
